@@ -94,7 +94,7 @@ func (in *Interp) streamAppendBytes(st *State, b *BufObj, s BufV, expr ast.Expr,
 	base := b.Len
 	loop := in.streamLoop()
 	switch {
-	case sb != nil && (sb.Origin == "make" || sb.Origin == "append" || sb.Origin == "lit" || sb.Origin == "stream"):
+	case sb != nil && (sb.Origin == "make" || sb.Origin == "append" || sb.Origin == "lit" || sb.Origin == "stream" || sb.Origin == "join" && len(sb.Recs) > 0):
 		for _, r := range sb.Recs {
 			nr := *r
 			nr.Off = base.Add(r.Off.Sub(s.Off))
